@@ -118,6 +118,18 @@ CHECKS = {
         text="Every FontConfig option with a user-visible observable is given by flag, by file, by both with different values (flag must win) and not at all (default), on small source sets in the format family it applies to; the observable is read from the font the CLI wrote. For every listed option pair two TOML configurations sharing sources are built in one invocation and each font must equal, byte for byte, the font its configuration produces alone. The whole matrix (185 cases, ~210 CLI builds) is enumerated on every run.",
         design="3/C20",
     ),
+    "C12": dict(
+        level="exploration",
+        technique="runtime monitoring: before/after comparators (name-keyed cmap, advances, outlines, layout meaning, original colour table) + COLR-vs-SVG display-list oracle + bitmap provenance + structural validator on fonts written by the real maximum_color CLI",
+        text="Inputs are fonts nanoemoji itself built (COLRv1, COLRv0, picosvg, with GSUB ligatures) and synthetic third-party-style COLRv1 fonts (feaLib kerning, 1-3 palettes, no space glyph); maximum_color runs under ninja with combinations of --bitmaps, --colr_version and --keep_glyph_names. In the output the original colour table, cmap, advances, outlines and layout meaning must be unchanged (names recovered through the build's frozen-name intermediates when they are stripped), the complementary table must paint the same display list for every colour glyph reached from the same codepoints, every CBDT bitmap must be the PNG made for that glyph id, and the C07 validator must pass.",
+        design="3/C12",
+    ),
+    "C18": dict(
+        level="exploration",
+        technique="runtime monitoring: COLR evaluator at variation locations (gvar glyph sets, VarStore deltas for variable paints and ClipBox format 2) vs static builds of each master; interior-location clip-box containment",
+        text="Multi-master configurations whose masters are consistent deformations of one prototype are built by the real CLI (per-master UFOs, write_variable_font); at every master location the VF's display list, advances and clip-box presence are compared with a static build of that master, the default location is the default master, and at t in {0.25,0.5,0.75} between neighbouring masters the clip box in force must contain the geometry at that location. 'Every location' is sampled, not enumerated.",
+        design="3/C18",
+    ),
 }
 
 NOT_YET = {}
